@@ -5,6 +5,7 @@ package reasm
 import (
 	"bytes"
 	"os"
+	"sync"
 	"testing"
 	"time"
 
@@ -199,7 +200,64 @@ func init() {
 	}
 }
 
+// ---- C12: several assemblers on one pool under the cooperative scheduler ----
+
+type stream12 struct {
+	h *tcpsim.C12
+	s *tcpsim.C12Stream
+}
+
+func (st *stream12) Accept(tcp *layers.TCP, ci gopacket.CaptureInfo, dir reassembly.TCPFlowDirection, nextSeq reassembly.Sequence, start *bool, ac reassembly.AssemblerContext) bool {
+	st.h.Accept(st.s)
+	return true
+}
+
+func (st *stream12) ReassembledSG(sg reassembly.ScatterGather, ac reassembly.AssemblerContext) {
+	dir, start, end, skip := sg.Info()
+	total, saved := sg.Lengths()
+	side := 0
+	if dir == reassembly.TCPDirServerToClient {
+		side = 1
+	}
+	data := sg.Fetch(total)
+	st.h.Deliver(st.s, side, skip, data[saved:], start, end)
+}
+
+func (st *stream12) ReassemblyComplete(ac reassembly.AssemblerContext) bool {
+	st.h.Complete(st.s)
+	return true
+}
+
+type factory12 struct{ h *tcpsim.C12 }
+
+func (f *factory12) New(n, t gopacket.Flow, tcp *layers.TCP, ac reassembly.AssemblerContext) reassembly.Stream {
+	return &stream12{f.h, f.h.NewStream(n, t)}
+}
+
+type asm12 struct{ a *reassembly.Assembler }
+
+func (a asm12) Assemble(n gopacket.Flow, t *layers.TCP, ts time.Time) {
+	a.a.AssembleWithContext(n, t, &actx{gopacket.CaptureInfo{Timestamp: ts}})
+}
+func (a asm12) FlushT(t time.Time) (int, int) {
+	return a.a.FlushWithOptions(reassembly.FlushOptions{T: t})
+}
+func (a asm12) FlushAll() int { return a.a.FlushAll() }
+
+func c12pkg() *tcpsim.C12Pkg {
+	var pool *reassembly.StreamPool
+	return &tcpsim.C12Pkg{
+		Bidir:        true,
+		SetHook:      func(f func(int, *sync.Mutex, *sync.RWMutex, bool)) { reassembly.VerifYield = f },
+		SetOrder:     func(f func([]string) []int) { reassembly.VerifOrder = f },
+		NewPool:      func(h *tcpsim.C12) { pool = reassembly.NewStreamPool(&factory12{h}) },
+		NewAssembler: func() tcpsim.C12Asm { return asm12{reassembly.NewAssembler(pool)} },
+		PoolConns:    func() int { n, _, _ := pool.VerifStats(); return n },
+	}
+}
+
 var sims = map[string]sim.SimFunc{
+	"c12r": func(c *sim.Ctx) { tcpsim.RunC12(c, c12pkg()) },
 	"c09": func(c *sim.Ctx) {
 		tcpsim.Run(c, tcpsim.RunCfg{Strong: true, Bidir: true, Gen: tcpsim.GenCfg{MaxConns: 3, AllowNoEnd: true, AllowRST: true}}, mkWith(true, false))
 	},
